@@ -17,6 +17,14 @@ Oracle = sequential ownership model, independent of how the library partitions t
     the integrand have the same content afterwards;
   * when `_assemble` returns no worker is alive and no worker event follows the return.
 
+Further workloads (same oracle unless said otherwise): big-blocks (100..900 pairs, thread counts around 128/256),
+numpy-parallel (thousands of cells: kernels of different workers inside NumPy at the same time), parameter-kinds
+(caller-made DiscreteField / tuple of a composite basis / complex keyword arguments), join-timeouts-expire (controlled
+schedules while every finite Thread.join timeout of the assembling thread expires at once), entry-points (asm() over
+lists of bases with w.idx, elemental/coo_data, partial, block, CompositeBasis operands, bases without cells/facets:
+results-only oracle = bitwise the result of the nthreads=0 twin through the same entry point, no worker exception,
+no worker alive on return, operand tables unchanged).
+
 Oracle pitfalls met while building (kept as comments where they bite):
   * thread idents are re-used by later workers once an empty-chunk worker has exited -> workers are
     keyed by Thread object;
@@ -31,6 +39,11 @@ Oracle pitfalls met while building (kept as comments where they bite):
   * a store that does not go through ndarray.__setitem__ of the view (np.copyto, out=) is invisible to the
     logging view: "slot never written" is only claimed when the returned block does NOT hold the right
     non-zero value there; otherwise the store accounting of the run is dropped (tried: exit 2, not 1);
+  * hundreds of threads: 2*N+5 threads for N = 900 pairs can hit "can't start new thread" on correct code: the
+    big-block thread counts are capped (BIG_THREAD_CAP) and that RuntimeError is dropped, not judged;
+  * Form.block builds fresh `.zeros()` operands per call and CompositeBasis builds its tables on first use: the
+    object-identity bookkeeping of the harness would fill/alter exactly the caches under test, hence results-only there;
+  * under "expired join timeouts" an implementation may legitimately give up with TimeoutError: tolerated, counted;
   * a worker that raises does not make `assemble` raise (threading.excepthook prints, zeros stay in the block);
     the harness records worker exceptions itself instead of relying on the return value.
 """
@@ -54,7 +67,11 @@ RULE = ("config = (mesh, trial element, test element, cell/facet basis, integran
         f"<= {ENUM_LIMIT} (kernel granularity: one gate per integrand call; fine granularity: a second gate between "
         "compute and store), else structured + random samples (quick tier of the sampled-large family: limit "
         "200); (b) free-running runs with sys.monitoring LINE/"
-        "PY_RETURN yield injection (sleep(0) / 0-200 us) and shortened GIL switch interval.  One distinct non-trivial "
+        "PY_RETURN yield injection (sleep(0) / 0-200 us) and shortened GIL switch interval; (c) free-running: local "
+        "blocks of 100-900 pairs with thread counts around 128/256, meshes of thousands of cells (kernels overlap "
+        "inside NumPy), further keyword-parameter kinds, other entry points (asm lists/idx, elemental, partial, block, "
+        "CompositeBasis, empty bases) against the nthreads=0 twin; (d) controlled schedules with all finite join "
+        "timeouts expiring.  One distinct non-trivial "
         "case = (Nu, Nv, nthreads, granularity, hash of the global gate-passage order) of a run in which >= 2 workers "
         "that each computed >= 1 pair were alive at the same time")
 ASSUMPTIONS = [
@@ -77,7 +94,14 @@ REQUIRED_REACH = ["two-workers-alive-at-once", "empty-chunk:more-threads-than-pa
                   "store-gate-used", "yield-injected", "rectangular-local-block", "complex-dtype",
                   "schedule-realised", "nthreads=1", "nthreads=pairs+2", "workers-spawned:decorator",
                   "workers-spawned:numpy-int", "one-form-object-many-bases",
-                  "local-function-zero-value-nonzero-gradient", "slow-integrand"]
+                  "local-function-zero-value-nonzero-gradient", "slow-integrand",
+                  "big-block:pairs>127", "big-block:pairs>255", "big-block:workers>255", "zero-size-basis",
+                  "entry-point-yield-injected", "parameter-kind:params-df", "parameter-kind:params-tuple",
+                  "parameter-kind:params-complex", "numpy-parallel:thousands-of-cells",
+                  "kernels-of-different-workers-overlap-in-time", "join-timeouts-expire:active"]
+REQUIRED_REACH += ["entry-point-threaded:" + e for e in
+                   ("asm-lists-idx", "asm-lists-to-list", "elemental", "coo_data", "partial", "block", "composite-mul",
+                    "composite-matmul", "composite-rectangular")]
 
 
 # --------------------------------------------------------------------------- integrands
@@ -139,6 +163,26 @@ def make_form(name, nu):
         def form(*args):
             us, vs, w = _split(args, nu)
             return (1.0 + 2.0j) * U(us) * dV(vs) + 1.0j * w.x[0] * U(us) * V(vs) + U(us) * V(vs)
+    elif name == "params-df":
+        # a field the caller interpolated himself (basis.interpolate(x)): value and gradient are used
+        def form(*args):
+            us, vs, w = _split(args, nu)
+            f = w["f"]
+            return (w["c"] * U(us) * dV(vs) + _val(f) * U(us) * V(vs) + _der(f) * dU(us) * V(vs)
+                    + np.array(w["g"]) * U(us) * V(vs))
+    elif name == "params-tuple":
+        # composite basis: the interpolated field is a tuple, the *second* component is used as well
+        def form(*args):
+            us, vs, w = _split(args, nu)
+            f = w["f"]
+            return (_val(f[0]) * U(us) * V(vs) + _val(f[1]) * U(us) * dV(vs) + _der(f[1]) * dU(us) * V(vs)
+                    + _der(f[0]) * U(us) * V(vs) + w["c"] * U(us) * V(vs))
+    elif name == "params-complex":
+        def form(*args):
+            us, vs, w = _split(args, nu)
+            f = w["f"]
+            f = f[0] if isinstance(f, tuple) else f
+            return w["c"] * U(us) * dV(vs) + _val(f) * U(us) * V(vs) + np.array(w["g"]) * dU(us) * V(vs)
     elif name == "facet-normal":
         def form(*args):
             us, vs, w = _split(args, nu)
@@ -189,6 +233,14 @@ LARGE = [  # sampled schedules and free-running stress
     ("tri", "ElementTriP1()", "ElementTriP0()", "interior"),           # trial on side 0, test on side 1: 3 x 1
     ("quad", "ElementQuad1()", "ElementQuad1()", "interior"),          # 4 x 4 across interior facets
 ]
+BIG = [  # > 64 pairs (free-running only): a flattened pair index / chunk arithmetic in a narrow integer type shows
+    ("tet", "ElementTetP2()", None, "cell"),                           # 10 x 10 = 100
+    ("tri", "ElementTriArgyris()", None, "cell"),                      # 21 x 21 = 441
+    ("hex", "ElementHex2()", None, "cell"),                            # 27 x 27 = 729
+    ("hex", "ElementHex2()", "ElementHex1()", "cell"),                 # 27 x 8 = 216, rectangular
+    ("tet", "ElementVector(ElementTetP2())", None, "cell"),            # 30 x 30 = 900
+]
+BIG_THREAD_CAP = 460    # OS threads alive at once: ~1500 can fail with "can't start new thread" on correct code
 FORMS_REAL = ["convect", "mass-x", "h-weighted", "params"]
 
 
@@ -220,7 +272,7 @@ class Config:
     pass
 
 
-def build_config(rng, spec, size, formname=None, dtype=None):
+def build_config(rng, spec, size, formname=None, dtype=None, max_cells=None, intorder=None):
     import skfem
     kind, uexpr, vexpr, bkind = spec
     try:
@@ -228,7 +280,11 @@ def build_config(rng, spec, size, formname=None, dtype=None):
     except TypeError:
         mc = G.first_order(rng, kind)
     mesh = mc.mesh
-    if size == "tiny" and mesh.t.shape[1] > 24:
+    if max_cells is not None and mesh.t.shape[1] > max_cells:
+        # large local blocks: the number of pairs is the subject, two or three cells are enough
+        keep = np.sort(rng.choice(mesh.t.shape[1], size=int(rng.integers(2, max_cells + 1)), replace=False))
+        elements = keep.astype(np.int64)
+    elif size == "tiny" and mesh.t.shape[1] > 24:
         # enumeration only needs the local structure; keep the numerics cheap
         keep = np.sort(rng.choice(mesh.t.shape[1], size=int(rng.integers(2, 9)), replace=False))
         elements = keep.astype(np.int64)
@@ -237,7 +293,9 @@ def build_config(rng, spec, size, formname=None, dtype=None):
     cfg = Config()
     try:
         ue = _elem(uexpr)
-        if bkind == "cell":
+        if bkind == "cell" and intorder is not None:
+            ub = skfem.CellBasis(mesh, ue, elements=elements, intorder=intorder)
+        elif bkind == "cell":
             ub = skfem.CellBasis(mesh, ue) if elements is None else skfem.CellBasis(mesh, ue, elements=elements)
         elif bkind == "facet":
             ub = skfem.FacetBasis(mesh, ue)
@@ -266,15 +324,25 @@ def build_config(rng, spec, size, formname=None, dtype=None):
         else:
             pool = list(FORMS_REAL) + (["facet-normal"] if bkind != "cell" else [])
             formname = pool[int(rng.integers(len(pool)))]
-    if formname == "complex" and np.dtype(dtype).kind != "c":
+    if formname in ("complex", "params-complex") and np.dtype(dtype).kind != "c":
         dtype = np.complex128
-    if formname != "complex" and np.dtype(dtype).kind == "c":
+    if formname not in ("complex", "params-complex") and np.dtype(dtype).kind == "c":
         formname = "complex"
     kwargs = {}
     if formname == "params":
         kwargs = {"c": float(rng.integers(1, 9)) / 4.0,
                   "f": (rng.integers(-8, 9, size=ub.N) / 8.0),
                   "g": (rng.integers(-8, 9, size=ub.dx.shape) / 8.0)}
+    elif formname in ("params-df", "params-tuple"):
+        f = ub.interpolate(rng.integers(-8, 9, size=ub.N) / 8.0)
+        if (formname == "params-tuple") != isinstance(f, tuple):
+            raise Skip("interpolated-field-kind-does-not-fit-form")
+        kwargs = {"c": float(rng.integers(1, 9)) / 4.0, "f": f,
+                  "g": (rng.integers(-8, 9, size=ub.dx.shape) / 8.0)}
+    elif formname == "params-complex":
+        kwargs = {"c": complex(rng.integers(1, 9) / 4.0, rng.integers(-4, 5) / 4.0),
+                  "f": (rng.integers(-8, 9, size=ub.N) / 8.0) + 1j * (rng.integers(-8, 9, size=ub.N) / 8.0),
+                  "g": (rng.integers(-8, 9, size=ub.dx.shape) / 8.0) * (1.0 - 0.5j)}
     cfg.mesh, cfg.ub, cfg.vb, cfg.vb_arg = mesh, ub, vb, vb_arg
     cfg.Nu, cfg.Nv = int(ub.Nbfun), int(vb.Nbfun)
     cfg.npairs = cfg.Nu * cfg.Nv
@@ -341,10 +409,12 @@ def serial_reference(cfg):
 
 
 # --------------------------------------------------------------------------- one run + oracle
-def run_once(ctx, cfg, ref, nthreads, mode="free", schedule=None, fine=False, fp2w=None, spelling="plain"):
+def run_once(ctx, cfg, ref, nthreads, mode="free", schedule=None, fine=False, fp2w=None, spelling="plain",
+             expire_joins=False):
     import skfem
     h = H.Harness(cfg.ub, cfg.vb, cfg.raw, mode=mode, schedule=schedule, fine=fine, first_pair_to_worker=fp2w,
-                  step_timeout=ctx.scale(20.0, 40.0), total_timeout=ctx.scale(40.0, 90.0))
+                  step_timeout=ctx.scale(20.0, 40.0), total_timeout=ctx.scale(40.0, 90.0),
+                  expire_join_timeouts=expire_joins)
     if not h.ids_unique:
         raise Skip("basis-objects-not-distinct")
     if spelling == "decorator":
@@ -355,7 +425,20 @@ def run_once(ctx, cfg, ref, nthreads, mode="free", schedule=None, fine=False, fp
     else:
         inst = skfem.BilinearForm(h.wrap_form(), dtype=cfg.dtype, nthreads=nthreads)
     h.instrument(inst)
-    A = h.run(inst, cfg.vb_arg, dict(cfg.kwargs))
+    try:
+        A = h.run(inst, cfg.vb_arg, dict(cfg.kwargs))
+    except TimeoutError:
+        if not (expire_joins and h.finite_joins):
+            raise
+        # an implementation that gives up with an error when its own deadline passes does not hand out a wrong
+        # matrix: tolerated and counted, not judged
+        ctx.tolerated("workers-joined-before-return")
+        raise Skip("assemble-raised-TimeoutError-when-its-join-timeouts-expired")
+    if expire_joins:
+        if h.join_patch_used:
+            ctx.reached("join-timeouts-expire:active")
+        if h.finite_joins:
+            ctx.reached("join-timeouts-expire:finite-joins-seen", h.finite_joins)
     if h.watchdog:
         # a cap fired: inconclusive by construction, never a violation
         ctx.notes.setdefault("watchdog_reason", str(h.abort_reason))
@@ -593,7 +676,7 @@ def probe(ctx, cfg, ref, nthreads):
     return seqs
 
 
-def controlled(ctx, cfg, ref, nthreads, fine, nsample, rng, limit=ENUM_LIMIT):
+def controlled(ctx, cfg, ref, nthreads, fine, nsample, rng, limit=ENUM_LIMIT, expire_joins=False):
     """All (or sampled) interleavings for one (config, nthreads, granularity)."""
     seqs = probe(ctx, cfg, ref, nthreads)
     if seqs is None:
@@ -612,7 +695,8 @@ def controlled(ctx, cfg, ref, nthreads, fine, nsample, rng, limit=ENUM_LIMIT):
     realised = 0
     nrun = 0
     for sched in scheds:
-        h, A = run_once(ctx, cfg, ref, nthreads, mode="controlled", schedule=sched, fine=fine, fp2w=fp2w)
+        h, A = run_once(ctx, cfg, ref, nthreads, mode="controlled", schedule=sched, fine=fine, fp2w=fp2w,
+                        expire_joins=expire_joins)
         nrun += 1
         oh = evaluate(ctx, cfg, ref, h, A, nthreads, gran, "controlled", sched=sched)
         got = tuple(h.widx_of.get(tk) for tk, a, b in h.kernel_order())
@@ -726,6 +810,153 @@ def fam_sweep(ctx, k):
         hashes.add((nth, evaluate(ctx, cfg, ref, h, A, nth, "kernel", "free:" + spelling)))
         if h.worker_tks:
             ctx.reached("workers-spawned:" + spelling)
+    ctx.reached("interleavings-distinct:free", len(hashes))
+    ctx.sample({"config": cfg.desc, "thread_counts": ths, "distinct_orders": len(hashes)}, per_family=2)
+
+
+JOIN_SPECS = [SMALL[3], SMALL[7], LARGE[0], LARGE[3], LARGE[8], LARGE[11], LARGE[20]]
+
+
+def fam_join(ctx, k):
+    """"Join before flatten" when workers are slower than any timeout the implementation may have put on its joins:
+    controlled schedules (the structured ones hold one worker back until all others are done) with every *finite*
+    join timeout of the assembling thread expiring at once (see Harness.expire_join_timeouts).  `t.join()` and a
+    polling loop around `t.join(1.)` wait for the parked worker all the same; a single `t.join(5.)` returns and the
+    matrix is handed out while workers are alive."""
+    rng = ctx.rng()
+    cfg = build_config(rng, JOIN_SPECS[k % len(JOIN_SPECS)], "tiny")
+    ref = serial_reference(cfg)
+    nth = (2, 3, 2, cfg.npairs + 2)[(k // len(JOIN_SPECS)) % 4]
+    controlled(ctx, cfg, ref, max(2, min(nth, cfg.npairs + 2)), fine=bool(k % 2), nsample=ctx.scale(8, 24), rng=rng,
+               limit=0, expire_joins=True)
+
+
+def fam_parallel(ctx, k):
+    """Thousands of cells: the array operations of a kernel are long enough for NumPy to drop the GIL, so kernels of
+    different workers really run at the same time (a scratch buffer shared between kernels, a table filled on first
+    use, ... only show then).  Free-running, repeated; full ownership model, bitwise COO/CSR, input digests."""
+    import skfem
+    rng = ctx.rng()
+    which, formname = [("tri", "mass-x"), ("tet", "params"), ("tri", "params"), ("tet", "mass-x")][k % 4]
+    if which == "tri":
+        mesh, uexpr = skfem.MeshTri().refined(6), "ElementTriP2()"            # 8192 cells, 6 x 6 pairs
+    else:
+        mesh, uexpr = skfem.MeshTet().refined(3), "ElementTetP1()"            # 2560 cells, 4 x 4 pairs
+    cfg = Config()
+    ub = skfem.CellBasis(mesh, _elem(uexpr))
+    cfg.mesh, cfg.ub, cfg.vb, cfg.vb_arg = mesh, ub, ub, None
+    cfg.Nu = cfg.Nv = int(ub.Nbfun)
+    cfg.npairs = cfg.Nu * cfg.Nv
+    cfg.nt = int(ub.dx.shape[0])
+    cfg.dtype = np.float64
+    cfg.formname = formname
+    cfg.raw = make_form(formname, 1)
+    cfg.kwargs = {}
+    if formname == "params":
+        cfg.kwargs = {"c": float(rng.integers(1, 9)) / 4.0, "f": (rng.integers(-8, 9, size=ub.N) / 8.0),
+                      "g": (rng.integers(-8, 9, size=ub.dx.shape) / 8.0)}
+    cfg.desc = {"mesh": type(mesh).__name__, "ncells": int(mesh.t.shape[1]), "nt_assembled": cfg.nt, "trial": uexpr,
+                "test": "(same basis object)", "basis": "cell", "Nu": cfg.Nu, "Nv": cfg.Nv, "form": formname,
+                "dtype": "float64", "kwargs": sorted(cfg.kwargs)}
+    cfg.shared0 = shared_digests(cfg)
+    ref = serial_reference(cfg)
+    reps = ctx.scale(3, 5)
+    for nth in (2, 3, 4, 8):
+        for r in range(reps):
+            h, A = run_once(ctx, cfg, ref, nth, mode="free")
+            evaluate(ctx, cfg, ref, h, A, nth, "kernel", "free:numpy-parallel")
+            # kernels of two workers open at the same time (by the clock, not by the log order)
+            open_at, spans = {}, []
+            for kind, tk, a, b, t in h.log:
+                if kind == "enter":
+                    open_at[(tk, a)] = t
+                elif kind == "exit" and (tk, a) in open_at:
+                    spans.append((open_at.pop((tk, a)), t, tk))
+            spans.sort()
+            if any(s2[0] < s1[1] and s2[2] != s1[2] for s1, s2 in zip(spans, spans[1:])):
+                ctx.reached("kernels-of-different-workers-overlap-in-time")
+            if cfg.nt >= 2000:
+                ctx.reached("numpy-parallel:thousands-of-cells")
+    ctx.sample({"config": cfg.desc, "thread_counts": [2, 3, 4, 8], "repetitions": reps}, per_family=2)
+
+
+PARAM_KINDS = ([(sp, "params-df") for sp in (SMALL[3], LARGE[0], LARGE[5], LARGE[6], LARGE[7], LARGE[9], LARGE[20])]
+               + [(sp, "params-tuple") for sp in (LARGE[2], LARGE[15])]
+               + [(sp, "params-complex") for sp in (LARGE[1], LARGE[2], LARGE[3], LARGE[12])])
+
+
+def fam_params(ctx, k):
+    """Kinds of keyword parameters the form "params" does not see: a DiscreteField made by the caller
+    (basis.interpolate(x)) used through its gradient, the tuple of fields of a composite basis (second component),
+    complex scalars / DOF arrays / arrays.  Free runs over the thread counts plus sampled controlled schedules."""
+    rng = ctx.rng()
+    spec, formname = PARAM_KINDS[k % len(PARAM_KINDS)]
+    cfg = build_config(rng, spec, "mid" if (k // len(PARAM_KINDS)) % 2 else "tiny", formname=formname,
+                       dtype=np.complex128 if formname == "params-complex" else np.float64)
+    ref = serial_reference(cfg)
+    n = cfg.npairs
+    ths = sorted({1, 2, 3, n, n + 2} | {int(x) for x in rng.integers(1, n + 3, size=ctx.scale(1, 3))})
+    for nth in ths:
+        h, A = run_once(ctx, cfg, ref, nth, mode="free")
+        evaluate(ctx, cfg, ref, h, A, nth, "kernel", "free:" + formname)
+        if h.worker_tks and h.w_seen is not None:
+            ctx.reached("parameter-kind:" + formname)
+    controlled(ctx, cfg, ref, int(rng.integers(2, 4)), fine=bool(k % 2), nsample=ctx.scale(6, 24), rng=rng, limit=60)
+    ctx.sample({"config": cfg.desc, "thread_counts": ths}, per_family=2)
+
+
+def fam_big(ctx, k):
+    """Local blocks of 100..900 pairs (2-3 cells), free-running, thread counts around 127/128, 255/256 and around
+    the number of pairs; one run under yield injection.  Full ownership model as everywhere."""
+    from skfem.assembly.form.bilinear_form import BilinearForm
+    rng = ctx.rng()
+    spec = BIG[k % len(BIG)]
+    # a low quadrature order keeps the arrays of the first round below the size at which NumPy drops the GIL (the
+    # threaded path then takes ten times as long on a busy machine); later rounds use the default order
+    low = (k // len(BIG)) % 2 == 0
+    cfg = build_config(rng, spec, "tiny", max_cells=3, intorder=3 if low else None)
+    ref = serial_reference(cfg)
+    n = cfg.npairs
+    cand = {3, 129, 257, n + 2 if n + 2 <= BIG_THREAD_CAP else n // 2}
+    if (ctx.thorough or k >= len(BIG)) and low:
+        cand |= ({1, 2, 5, 7, 8, 127, 128, 255, 256, n // 2, n - 1, n, n + 1, n + 2}
+                 | {int(x) for x in rng.integers(1, n + 3, size=3)})
+    ths = sorted(t for t in cand if 1 <= t <= min(n + 2, BIG_THREAD_CAP))
+    hashes = set()
+
+    def one(nth, how, spelling="plain"):
+        try:
+            h, A = run_once(ctx, cfg, ref, nth, mode="free", spelling=spelling)
+        except RuntimeError as e:
+            if "can't start new thread" in str(e):
+                ctx.drop("os-refused-to-start-thread")      # a resource limit, not a wrong matrix
+                return
+            raise
+        hashes.add((nth, evaluate(ctx, cfg, ref, h, A, nth, "kernel", how)))
+        if n > 127:
+            ctx.reached("big-block:pairs>127")
+        if n > 255:
+            ctx.reached("big-block:pairs>255")
+        if nth > 255 and len(h.worker_tks) > 255:
+            ctx.reached("big-block:workers>255")
+    old_si = sys.getswitchinterval()
+    try:
+        for x, nth in enumerate(ths):
+            one(nth, "free:big", spelling=("plain", "decorator", "numpy-int")[(x + k) % 3])
+        # one run with forced switches between the lines of the worker loop
+        codes = [BilinearForm._threaded_kernel.__code__, BilinearForm._kernel.__code__,
+                 BilinearForm._assemble.__code__]
+        inj = H.YieldInjector(codes, seed=int(rng.integers(2 ** 31)), p_yield=0.3, p_sleep=0.1, max_us=50)
+        nth_inj = int(rng.integers(2, 9))
+        if ctx.thorough or n <= 256:      # (quick tier: the line callbacks of 900 kernels cost about a second)
+            sys.setswitchinterval(1e-5)
+            inj.start()
+            try:
+                one(nth_inj, "stress:big")
+            finally:
+                inj.stop()
+    finally:
+        sys.setswitchinterval(old_si)
     ctx.reached("interleavings-distinct:free", len(hashes))
     ctx.sample({"config": cfg.desc, "thread_counts": ths, "distinct_orders": len(hashes)}, per_family=2)
 
@@ -852,6 +1083,240 @@ def fam_reuse(ctx, k):
     ctx.nontrivial("reuse", kind, formname, nth, tuple(int(i) for i in order))
 
 
+# --------------------------------------------------------------------------- other entry points (results only)
+def _f_idx(u, v, w):
+    # DG penalty written for asm(form, [side0, side1], [side0, side1]): the sign of the jump comes from w.idx
+    ju = (-1.) ** w.idx[0] * _val(u)
+    jv = (-1.) ** w.idx[1] * _val(v)
+    return ju * jv / w.h + 0.5 * _der(u) * w.n[0] * jv + 0.25 * _val(u) * _der(v)
+
+
+def _f_coef(c, u, v, w):
+    # first argument bound by Form.partial
+    return _val(c) * _val(u) * _der(v) + _der(c) * _val(u) * _val(v) + (1.0 + w.x[0]) * _der(u) * _val(v)
+
+
+def _f_two(u1, u2, v1, v2, w):
+    # two components per operand: Form.block(i, j) and CompositeBasis b2 * b1
+    return (_val(u1) * _der(v2) + 2.0 * _val(u2) * _val(v1) + _der(u2) * _val(v2)
+            + 0.5 * (1.0 + w.x[0]) * _val(u1) * _val(v1) + _der(u1) * _val(v1))
+
+
+def _f_dg(u1, u2, v1, v2, w):
+    # side0 @ side1 (equal DOF numbering): the documented DG interior penalty form
+    ju, jv = _val(u1) - _val(u2), _val(v1) - _val(v2)
+    return ju * jv / w.h - 0.5 * (_der(u1) + _der(u2)) * w.n[0] * jv + 0.25 * ju * _der(v1)
+
+
+def _f_plain(u, v, w):
+    return (1.0 + w.x[0]) * _val(u) * _val(v) + 0.25 * _der(u) * _val(v) + _val(u) * _der(v)
+
+
+ENTRY = ["asm-lists-idx", "asm-lists-to-list", "elemental", "coo_data", "partial", "block", "composite-mul",
+         "composite-matmul", "composite-rectangular", "zero-cells", "zero-facets"]
+
+
+def _result_parts(r):
+    """A result in comparable pieces: [(what, array-or-tuple)]."""
+    if isinstance(r, (list, tuple)):
+        return [(f"[{n}]{w}", x) for n, item in enumerate(r) for w, x in _result_parts(item)]
+    if hasattr(r, "indptr"):
+        return [("csr.shape", tuple(r.shape)), ("csr.dtype", str(r.dtype)), ("csr.indptr", np.asarray(r.indptr)),
+                ("csr.indices", np.asarray(r.indices)), ("csr.data", np.asarray(r.data))]
+    if hasattr(r, "indices") and hasattr(r, "local_shape"):
+        return [("coo.indices", np.asarray(r.indices)), ("coo.data", np.asarray(r.data)),
+                ("coo.shape", tuple(r.shape)), ("coo.local_shape", None if r.local_shape is None
+                                                else tuple(r.local_shape))]
+    return [("value", np.asarray(r))]
+
+
+def _first_difference(a, b):
+    pa, pb = _result_parts(a), _result_parts(b)
+    if [w for w, _ in pa] != [w for w, _ in pb]:
+        return "structure"
+    for (w, x), (_, y) in zip(pa, pb):
+        if isinstance(x, np.ndarray):
+            if not _bytes_equal(x, y):
+                return w
+        elif x != y:
+            return w
+    return None
+
+
+def fam_entry(ctx, k):
+    """The ways to a threaded assembly other than form.assemble(ub[, vb]): asm() over lists of bases (w.idx),
+    elemental()/coo_data(), partial(), block(i, j) (deep copies of the form object that have to keep nthreads),
+    CompositeBasis operands (b2 * b1, side0 @ side1: their basis / element_dofs tables are built lazily on first use,
+    here inside the threaded call) and bases without any cell / facet.
+    Oracle (results only): the same call on a twin form with nthreads=0 gives bitwise the same COO triplets / CSR
+    matrix; no worker raised; no worker is alive on return; the operands' tables are unchanged."""
+    import threading
+    import skfem
+    from skfem.assembly import asm
+    rng = ctx.rng()
+    entry = ENTRY[k % len(ENTRY)]
+    kind = ("tri", "quad", "tet")[(k % len(ENTRY) + k // len(ENTRY)) % 3]
+    names = {"tri": ("ElementTriP1()", "ElementTriP2()", "ElementTriP0()"),
+             "quad": ("ElementQuad1()", "ElementQuad2()", "ElementQuad0()"),
+             "tet": ("ElementTetP1()", "ElementTetP2()", "ElementTetP0()")}[kind]
+    mc = {"tri": lambda: G.tri_mesh(rng, n=int(rng.integers(5, 8)), style="random"),
+          "quad": lambda: G.quad_mesh(rng, n=(2, 2)), "tet": lambda: G.tet_mesh(rng, style="default")}[kind]()
+    mesh = mc.mesh
+    dtype = (np.float64, np.float64, np.float32)[int(rng.integers(3))]
+    seen = set()
+
+    def rec(raw):
+        import functools
+
+        @functools.wraps(raw)          # (inspect.signature follows __wrapped__: Form.nargs stays right)
+        def f(*a):
+            seen.add(threading.current_thread())
+            return raw(*a)
+        return f
+
+    try:
+        if entry in ("asm-lists-idx", "asm-lists-to-list"):
+            sides = [skfem.InteriorFacetBasis(mesh, _elem(names[0]), side=sd) for sd in (0, 1)]
+            bases, raw = sides, _f_idx
+            kw = {"to": list} if entry.endswith("to-list") else {}
+
+            def call(form):
+                return asm(form, sides, sides, **kw)
+            npairs = sides[0].Nbfun ** 2
+        elif entry in ("elemental", "coo_data", "partial", "block"):
+            sub = None
+            if mesh.t.shape[1] > 12:
+                sub = np.sort(rng.choice(mesh.t.shape[1], size=int(rng.integers(2, 9)), replace=False))
+            b2 = skfem.CellBasis(mesh, _elem(names[1]), elements=sub)
+            b1 = b2.with_element(_elem(names[0]))
+            bases = [b2, b1]
+            npairs = b2.Nbfun * b1.Nbfun
+            if entry in ("elemental", "coo_data"):
+                raw = _f_plain
+
+                def call(form):
+                    return getattr(form, entry)(b2, b1)
+            elif entry == "partial":
+                raw = _f_coef
+                coef = b2.interpolate(rng.integers(-8, 9, size=b2.N) / 8.0)
+                how = int(rng.integers(2))
+
+                def call(form):
+                    g = form.partial(coef)
+                    return g.assemble(b2, b1) if how else g.elemental(b2, b1)
+            else:
+                raw = _f_two
+                ij = (int(rng.integers(2)), int(rng.integers(2)))
+
+                def call(form):
+                    return form.block(*ij).assemble(b2, b1)
+        elif entry in ("composite-mul", "composite-rectangular"):
+            sub = None
+            if mesh.t.shape[1] > 12:
+                sub = np.sort(rng.choice(mesh.t.shape[1], size=int(rng.integers(2, 9)), replace=False))
+            b2 = skfem.CellBasis(mesh, _elem(names[1]), elements=sub)
+            b1 = b2.with_element(_elem(names[0]))
+            b0 = b2.with_element(_elem(names[2]))
+            bases, raw = [b2, b1, b0], _f_two
+            rect = entry.endswith("rectangular")
+            npairs = (b2.Nbfun + b1.Nbfun) * ((b1.Nbfun + b0.Nbfun) if rect else (b2.Nbfun + b1.Nbfun))
+
+            def call(form):
+                # fresh composite operands per call: their tables are filled inside the call
+                return form.assemble(b2 * b1, b1 * b0) if rect else form.assemble(b2 * b1)
+        elif entry == "composite-matmul":
+            sides = [skfem.InteriorFacetBasis(mesh, _elem(names[0]), side=sd) for sd in (0, 1)]
+            bases, raw = sides, _f_dg
+            npairs = (2 * sides[0].Nbfun) ** 2
+
+            def call(form):
+                return form.assemble(sides[0] @ sides[1])
+        else:
+            # no cell / no facet at all: an empty matrix of the right shape and type, and the workers still come home
+            import logging
+            lg = logging.getLogger("skfem")
+            lvl = lg.level
+            lg.setLevel(logging.ERROR)        # "Initializing FacetBasis ... with no facets." is a warning
+            try:
+                if entry == "zero-cells":
+                    b = skfem.CellBasis(mesh, _elem(names[0]), elements=np.array([], dtype=np.int32))
+                else:
+                    b = skfem.FacetBasis(mesh, _elem(names[0]), facets=np.array([], dtype=np.int32))
+            finally:
+                lg.setLevel(lvl)
+            bases, raw = [b], _f_plain
+            npairs = b.Nbfun ** 2
+            how = int(rng.integers(2))
+
+            def call(form):
+                return form.assemble(b) if how else form.elemental(b)
+    except CaseTimeout:
+        raise
+    except Exception as e:
+        # building bases is not the subject (InteriorFacetBasis on distorted quadrilaterals: Newton failure, C10/C14)
+        raise Skip("basis-construction-failed:" + type(e).__name__ + ":" + str(e)[:60])
+
+    def digests():
+        return {f"basis[{n}].{w}": H.digest_obj(x) for n, b in enumerate(bases)
+                for w, x in (("basis", b.basis), ("dx", b.dx), ("element_dofs", np.asarray(b.element_dofs)))}
+    d0 = digests()
+    S = call(skfem.BilinearForm(raw, dtype=dtype, nthreads=0))
+    ths = sorted({1, 2, 3, npairs, npairs + 2} | {int(x) for x in rng.integers(1, npairs + 3, size=ctx.scale(1, 3))})
+    # second pass under yield injection between the lines of the worker loop *and* of the lazily evaluated tables of
+    # CompositeBasis (a table that is visible before it is complete only shows when a switch falls into its build-up)
+    from skfem.assembly.basis.composite_basis import CompositeBasis
+    from skfem.assembly.form.bilinear_form import BilinearForm
+    codes = [BilinearForm._threaded_kernel.__code__, BilinearForm._kernel.__code__, BilinearForm._assemble.__code__]
+    codes += [getattr(CompositeBasis, a).fget.__code__ for a in ("basis", "element_dofs")
+              if isinstance(getattr(CompositeBasis, a, None), property)]
+    runs = [(nth, False) for nth in ths] + [(nth, True) for nth in sorted({2, 3, min(npairs, 8)})]
+    old_si = sys.getswitchinterval()
+    for nth, injected in runs:
+        tag = {"entry": entry, "mesh": type(mesh).__name__, "nthreads": int(nth), "pairs": int(npairs),
+               "dtype": np.dtype(dtype).name, "yield_injection": injected}
+        seen.clear()
+        before = set(threading.enumerate())
+        inj = None
+        if injected:
+            inj = H.YieldInjector(codes, seed=int(rng.integers(2 ** 31)), p_yield=0.4, p_sleep=0.2, max_us=100)
+            sys.setswitchinterval(1e-5)
+            inj.start()
+        try:
+            with H._QuietExcepthook() as q:
+                T = call(skfem.BilinearForm(rec(raw), dtype=dtype, nthreads=nth))
+                left = [t for t in threading.enumerate() if t not in before and t.is_alive()]
+                for t in left:
+                    t.join(30.0)
+        finally:
+            if inj is not None:
+                inj.stop()
+                sys.setswitchinterval(old_si)
+                t = inj.totals()
+                if t["yields"] + t["sleeps"] > 0:
+                    ctx.reached("entry-point-yield-injected")
+        diff = _first_difference(T, S)
+        is_coo = any(w.startswith(("coo", "[")) for w, _ in _result_parts(S))
+        ctx.check("coo-bitwise-equal-serial" if is_coo else "csr-bitwise-equal-serial", diff is None,
+                  mech=f"entry-point:{entry}:differs-from-serial", first_difference=diff, **tag)
+        ctx.check("no-worker-exception", not q.seen, mech=f"worker-raised:entry-point:{entry}",
+                  deaths=q.seen[:3], **tag)
+        ctx.check("workers-joined-before-return", not left, mech="worker-alive-when-entry-point-returned",
+                  alive=len(left), **tag)
+        d1 = digests()
+        changed = sorted(x for x in d0 if d0[x] != d1[x])
+        ctx.check("shared-inputs-unchanged", not changed, mech=lambda: "shared-input-modified:entry-point:" +
+                  changed[0].split(".")[-1], changed=changed, **tag)
+        workers = [t for t in seen if t is not threading.main_thread()]
+        if workers:
+            ctx.reached("entry-point-threaded:" + entry)
+        if entry.startswith("zero"):
+            ctx.reached("zero-size-basis")
+        elif len(workers) >= 2:
+            ctx.nontrivial("entry", entry, kind, int(nth))
+    ctx.sample({"entry": entry, "mesh": type(mesh).__name__, "pairs": int(npairs), "thread_counts": ths},
+               per_family=3)
+
+
 def fam_slow(ctx, k):
     """A slow integrand (0.5 s per call: a coefficient read from disk, a table look-up): the caller gets the matrix
     only after every worker has finished, however long that takes ("join before flatten")."""
@@ -888,6 +1353,14 @@ FAMILIES = [
     Family("sampled-large", fam_sampled, quick=24, thorough=660, budget={"quick": 30, "thorough": 420}),
     Family("sweep-threadcounts", fam_sweep, quick=36, thorough=680, budget={"quick": 30, "thorough": 420}),
     Family("stress-yield", fam_stress, quick=16, thorough=480, budget={"quick": 30, "thorough": 420}),
+    Family("big-blocks", fam_big, quick=len(BIG), thorough=60, budget={"quick": 40, "thorough": 420}),
+    Family("join-timeouts-expire", fam_join, quick=len(JOIN_SPECS), thorough=12 * len(JOIN_SPECS),
+           budget={"quick": 30, "thorough": 300}),
+    Family("numpy-parallel", fam_parallel, quick=2, thorough=16, budget={"quick": 30, "thorough": 300}),
+    Family("parameter-kinds", fam_params, quick=len(PARAM_KINDS), thorough=20 * len(PARAM_KINDS),
+           budget={"quick": 30, "thorough": 300}),
+    Family("entry-points", fam_entry, quick=2 * len(ENTRY), thorough=40 * len(ENTRY),
+           budget={"quick": 30, "thorough": 300}),
     Family("reuse-form-object", fam_reuse, quick=24, thorough=480, budget={"quick": 30, "thorough": 300}),
     Family("slow-integrand", fam_slow, quick=1, thorough=2, budget={"quick": 30, "thorough": 60}),
     Family("observe-integrand-exception", fam_observe, quick=1, thorough=1),
